@@ -34,6 +34,6 @@ SPEC = {
 
 MANIFEST = {
     "technique": "Coq proof (coverage invariant over split/emit/filter of the lock-step parallel chunker, key-run partition of the sequential chunker, order-insensitive idempotent import, proof-verification soundness modulo hash collisions) with differential correspondence check of both real chunkers and an implementation-side restore oracle on both node database backends",
-    "level_text": "Theorems in coq/Props/C12.v hold for every well-formed tree, every chunk size and every thread count: every chunk recomputes to the checkpoint root and carries only pairs of the tree, every pair is carried by some chunk, the sequential chunks partition the contents in order, the parallel rounds terminate, importing the chunks in any order with any repetitions yields exactly the contents (hence, by canonicity of the trie, the same tree and root), the chunk list depends only on (contents, chunk size, threads), a chunk with a wrong digest / undecodable / non-verifying proof changes nothing, and an accepted chunk is the genuine file and shows only pairs of the tree unless a hash collides. The model is tied to the code by creating real checkpoints (sequential and parallel chunkers) on real databases, decoding every chunk file independently and comparing the per-chunk key lists with the model evaluated in Coq; restores with random orders, duplicates, 1-8 goroutines, abort/restart, creation into a directory that already holds leftovers of an earlier attempt for the same root (complete or partial chunk sets of other parameters with the metadata removed, arbitrary stale files; what is served must equal what is written, then the usual restore), chunk sizes placed exactly on / one below / one above the recomputed size estimate of a chunk (with an implementation-side oracle for the sequential boundary rule), a deterministic in-flight interleaving (one chunk pinned inside RestoreChunk by a blocking reader while another caller restores all others, with and without a duplicate of the pinned chunk: no call may report done before the pinned import completed) and seven corruption classes are judged; the restorer's bookkeeping is tied to the model by generated call schedules (answer to every StartRestore / AbortRestore / RestoreChunk / Finalize call) and the chunk file framing by comparing the uncompressed stream of real chunk files byte for byte with the model's serialization; restores by an oracle on the implementation (full iteration of the restored root equals the original contents).",
+    "level_text": "Theorems in coq/Props/C12.v hold for every well-formed tree, every chunk size and every thread count: every chunk recomputes to the checkpoint root and carries only pairs of the tree, every pair is carried by some chunk, the sequential chunks partition the contents in order, the parallel rounds terminate, importing the chunks in any order with any repetitions yields exactly the contents (hence, by canonicity of the trie, the same tree and root), the chunk list depends only on (contents, chunk size, threads), a chunk with a wrong digest / undecodable / non-verifying proof changes nothing, and an accepted chunk is the genuine file and shows only pairs of the tree unless a hash collides. The model is tied to the code by creating real checkpoints (sequential and parallel chunkers) on real databases, decoding every chunk file independently and comparing the per-chunk key lists with the model evaluated in Coq; restores with random orders, duplicates, 1-8 goroutines, abort/restart, read errors injected into checkpoint creation (the k-th GetNode of the walk fails with a plain error or ErrNodeNotFound, both chunkers: CreateCheckpoint must report the error or the result must restore to exactly the source contents), creation into a directory that already holds leftovers of an earlier attempt for the same root (complete or partial chunk sets of other parameters with the metadata removed, arbitrary stale files; what is served must equal what is written, then the usual restore), chunk sizes placed exactly on / one below / one above the recomputed size estimate of a chunk (with an implementation-side oracle for the sequential boundary rule), a deterministic in-flight interleaving (one chunk pinned inside RestoreChunk by a blocking reader while another caller restores all others, with and without a duplicate of the pinned chunk: no call may report done before the pinned import completed) and seven corruption classes are judged; the restorer's bookkeeping is tied to the model by generated call schedules (answer to every StartRestore / AbortRestore / RestoreChunk / Finalize call) and the chunk file framing by comparing the uncompressed stream of real chunk files byte for byte with the model's serialization; restores by an oracle on the implementation (full iteration of the restored root equals the original contents).",
     "level_note": "Trusted: Coq kernel; the harness and its chunk decoder; the abstraction of the parallel chunker's traversal stack (validated by correspondence, not proved); framing, hashing and the node database are abstract in the model. The proof verifier's depth limit (128) is part of the model: chunks_verify carries the hypothesis and a refutation witness shows it is needed.",
 }
